@@ -25,7 +25,13 @@ def dyn(rnd, n=None):
     Mlist = np.array([G.pose(rnd, rnd.choice(['zero', 'generic', 'one']), 1.0, 2.0)[0] for _ in range(n + 1)])
     Glist = np.array([spd_spatial_inertia(rnd) for _ in range(n)])
     v = lambda s=1.0: np.array([rnd.uniform(-s, s) for _ in range(n)])
-    return dict(n=n, S=S, Mlist=Mlist, Glist=Glist, th=v(math.pi), dth=v(3), ddth=v(3), tau=v(20),
+    dth = v(3)
+    zk = rnd.random()       # joint rates with exact zeros: some joints at rest while others move, or a single joint moving
+    if zk < 0.2:
+        dth = dth * np.array([0.0 if rnd.random() < 0.5 else 1.0 for _ in range(n)])
+    elif zk < 0.3:
+        one = np.zeros(n); one[rnd.randrange(n)] = rnd.choice([-1.0, 1.0]) * rnd.uniform(0.5, 3); dth = one
+    return dict(n=n, S=S, Mlist=Mlist, Glist=Glist, th=v(math.pi), dth=dth, ddth=v(3), tau=v(20),
                 g=np.array([rnd.uniform(-10, 10) for _ in range(3)]), F=np.array([rnd.uniform(-20, 20) for _ in range(6)]))
 
 
